@@ -12,7 +12,8 @@ Explorer shape E4 (choice-point ownership of hidden nondeterminism) + E2 (cache 
      object of exact type set/frozenset is reachable from the namespace / transformer / blocks,
      (c) no giscanner frame ever holds a plain set in a local variable (line-level trace).
      Oracle: GIR bytes == reference bytes.
- P2  arrival orders: every C-admissible permutation of the declarations displacing <= m of them (all
+ P2  arrival orders (also inside the runtime dump: top-level elements and the property / signal /
+     implements / prerequisite children of each type): every C-admissible permutation of the declarations displacing <= m of them (all
      permutations for short lists; plus rotations, reversal, header-file swap), once with each
      declaration keeping its own line (bytes must be equal) and once with line numbers following the
      new order (bytes equal after blanking source-position line numbers => sibling order is a function
@@ -52,9 +53,9 @@ REQUIRED = ['giscanner.ast', 'giscanner.transformer', 'giscanner.maintransformer
             'giscanner.cachestore', 'giscanner.xmlwriter', 'giscanner.sourcescanner']
 
 BOUNDS = {
-    'quick': {'dev': 2, 'decl_moved': 3, 'decl_full': 5, 'block_moved': 4, 'block_full': 5, 'hist': 3,
+    'quick': {'dev': 4, 'decl_moved': 3, 'decl_full': 5, 'block_moved': 4, 'block_full': 5, 'hist': 3,
               'seeds': 3},
-    'thorough': {'dev': 3, 'decl_moved': 4, 'decl_full': 6, 'block_moved': 5, 'block_full': 6, 'hist': 4,
+    'thorough': {'dev': 64, 'decl_moved': 4, 'decl_full': 6, 'block_moved': 5, 'block_full': 6, 'hist': 4,
                  'seeds': 16},
 }
 
@@ -84,6 +85,15 @@ def static_scan():
         p, c = choice.scan_source(m.__file__)
         problems += p
         calls += c
+    gir_path = [m for m in mods if m.__name__.split('.')[-1] in (
+        'ast', 'transformer', 'maintransformer', 'introspectablepass', 'gdumpparser', 'girparser', 'girwriter',
+        'message', 'annotationparser', 'xmlwriter', 'sourcescanner')]
+    inv = []
+    for m in gir_path:
+        inv += choice.inventory_source(m.__file__)
+    if inv:
+        raise HarnessBroken('nondeterminism inventory changed (a source of run-to-run variation other than set '
+                            'iteration is now on the path to the GIR; this check does not own it): ' + '; '.join(inv[:6]))
     if problems:
         raise HarnessBroken('a set can be created outside the explorer\'s control; extend vt/choice.py before '
                             'trusting this check: ' + '; '.join(problems[:8]))
@@ -846,6 +856,13 @@ def run(ctx):
         cpus[name] = round(c - lastc[0], 2)
         lastc[0] = c
         ctx.set(phase_wall_s=dict(walls), phase_cpu_s=dict(cpus))
+    # developer knob (used for mutation experiments): C16_PHASES=choice,arrival,relation,cache,seeds
+    only = set(x for x in os.environ.get('C16_PHASES', '').split(',') if x)
+    if only:
+        ctx.cap('C16_PHASES=%s (not the full check)' % ','.join(sorted(only)))
+
+    def want(p):
+        return not only or p in only
     nsel = choice.selftest()
     nmods, ncalls = static_scan()
     I.ensure_deps()
@@ -880,16 +897,20 @@ def run(ctx):
         raise HarnessBroken('vacuous: choice points at only %d source sites: %r' % (len(sites), sites))
     if max(max(v) for v in sizes.values() if v) < 3:
         raise HarnessBroken('vacuous: no set with more than 2 elements was iterated')
-    ctx.set(choice_points={n: len(sizes[n]) for n in names}, choice_sites=sites,
+    full_menu = b['dev'] >= max(len(v) for v in sizes.values())
+    ctx.set(choice_exploration_covers_every_combination_of_offered_permutations=full_menu,
+            choice_points={n: len(sizes[n]) for n in names}, choice_sites=sites,
             choice_executions_if_traces_stable={n: choice.count_bound(sizes[n], b['dev']) for n in names})
 
     # ---- P1 exploration, partitioned by (input, first deviated choice point)
     chunks = []
     for n in names:
         ks = list(range(len(sizes[n])))
-        per = 1 if b['dev'] >= 3 else 4
+        per = 1
         for i in range(0, len(ks), per):
             chunks.append((n, ks[i:i + per], b['dev']))
+    if not want('choice'):
+        chunks = []
     for r in pmap(_work_choice, rotate(chunks, ctx.seed)):
         ctx.merge(r)
     order_dependent = set()
@@ -897,7 +918,7 @@ def run(ctx):
         if key.startswith('choice:'):
             order_dependent.add(key.split(':')[1])
     for n in names:
-        if audit[n]['native_differs'] and n not in order_dependent:
+        if audit[n]['native_differs'] and n not in order_dependent and want('choice'):
             raise HarnessBroken('installing ChoiceSet changed the output of %s but no explored permutation does' % n)
     phase('choice')
 
@@ -919,6 +940,8 @@ def run(ctx):
         if dc:
             chunks.append((inp['name'], 'dump', dc))
     ctx.set(inadmissible_declaration_orders_skipped=rejected)
+    if not want('arrival'):
+        chunks = []
     pv = []
     for r in pmap(_work_perm, rotate(chunks, ctx.seed)):
         pv += r.pop('perm_violations')
@@ -942,7 +965,7 @@ def run(ctx):
 
     # ---- P3 sibling order is one fixed function of kind and name; declaration order of members
     rel = {}
-    for inp in inputs:
+    for inp in (inputs if want('relation') else []):
         root = sibling_relation(refs[inp['name']], rel, inp['name'])
         problems, checked = declared_order_problems(inp, root)
         ctx.add(traces_validated_against_impl=1, declared_order_lists_checked=checked)
@@ -960,12 +983,12 @@ def run(ctx):
                           {'kind': 'sibling-order', 'parent': ptag, 'a': list(a), 'b': list(bb),
                            'inputs': [where, rel[(ptag, bb, a)]]})
     ctx.add(sibling_pairs_related=len(rel))
-    if len(rel) < 300:
+    if len(rel) < 300 and want('relation'):
         raise HarnessBroken('vacuous sibling relation: %d pairs' % len(rel))
 
     phase('relation')
     # ---- P4 cache histories
-    hists = cache_histories(ctx.tier, b['hist'])
+    hists = cache_histories(ctx.tier, b['hist']) if want('cache') else []
     hchunks = [(i, c) for i, c in enumerate(chunked(rotate(hists, ctx.seed), max(NCPU, 1) * 2))]
     cache_states = set()
     for r in pmap(_work_cache, hchunks):
@@ -976,7 +999,7 @@ def run(ctx):
         for k in ('none', 'fresh', 'stale', 'corrupt'):
             if "'%s'" % k in s:
                 kinds.add(k)
-    if kinds != {'none', 'fresh', 'stale', 'corrupt'}:
+    if kinds != {'none', 'fresh', 'stale', 'corrupt'} and want('cache'):
         raise HarnessBroken('cache histories did not reach every entry state: %r' % sorted(kinds))
     if ctx.cov.get('cache_hits', 0) == 0 and not ctx.violations:
         ctx.assumptions.append('NOTE: no cache hit was observed in any history (the cache never served an entry)')
@@ -985,7 +1008,7 @@ def run(ctx):
 
     phase('cache')
     # ---- P5 real hash seeds
-    seeds = [1 + i * 977 for i in range(b['seeds'])]
+    seeds = [1 + i * 977 for i in range(b['seeds'] if want('seeds') else 0)]
     got = hashseed_runs(seeds)
     confirmed = set()
     for s in seeds:
@@ -1013,7 +1036,7 @@ def run(ctx):
         'cache timestamps use a logical clock (mtimes set by the harness after each operation in event order)',
         'vt/choice.py, vt/scan/fake.py (stub C scanner module) and the miniature/generated dependency GIRs are trusted',
     ]
-    if len(ctx._outcomes) < 8:
+    if len(ctx._outcomes) < 8 and not only:
         raise HarnessBroken('vacuous exploration: %d outcomes' % len(ctx._outcomes))
 
 
